@@ -14,7 +14,7 @@ for v in /verif/variants/${1:-v}*.diff; do
   bad=""
   for p in $props; do
     out=$(UGO_REPO=$wt UGOLINT_EVDIR=/tmp/ev-variants /verif/bin/ugolint $p quick 2>&1); rc=$?
-    if [ $rc -ne 0 ]; then bad="$bad $p"; echo "$out" | grep -E ": (violation|undecided):" | cut -c1-240 | head -4; fi
+    if [ $rc -ne 0 ]; then bad="$bad $p"; echo "$out" | grep -E "\] (violation|undecided):" | cut -c1-240 | head -4; fi
   done
   echo "$(basename $v): ${bad:-silent}"
 done
